@@ -25,8 +25,11 @@
   (both satisfied by toy instances: `ToyDeps.toyAead_laws`, `ToyRec.kem_laws`).
 -/
 import EnvVerif.Lemmas.RecipientLemmas
+import EnvVerif.Model.Seal
+import EnvVerif.Props.C09
+import EnvVerif.Props.C05
 namespace EnvVerif
-open Env ToyDeps ToyRec RecL RecL.Ex
+open Env ToyDeps ToyRec RecL RecL.Ex SigL
 
 section
 variable (h : Hash) (A : Aead)
@@ -316,4 +319,131 @@ example (e : Env) :
       kem.schemeOfSealed, kem.schemeOfKey⟩ 1 e rfl rfl (by intro s hs; simp only [hs, if_true])).1
 
 end
+/-! ### seal / unseal (`src/seal.rs`): sign, then encrypt to the recipient; decrypt, then verify
+
+Model: `Model/Seal.lean`.  The theorem composes the signature theorems of C09
+(`added_signature_verifies_fresh`, `other_key_rejects`) with `c10_encryptToRecipient_roundtrip`. -/
+
+section
+variable (h : Hash) (A : Aead)
+
+/-- `sign` in closed form: the wrapped envelope carrying one `'signed'` assertion -/
+theorem signWrapped_eq (e : Env) (sig : Cbor) :
+    signWrapped h e sig = .ok (signedWrapper h e (fun _ => sig)) := by
+  unfold signWrapped
+  rw [addSignature_nil]
+  exact addWrapperSig h e (fun _ => sig)
+
+theorem signedWrapper_inv {e : Env} (hi : Inv h e) (sig : Cbor) :
+    Inv h (signedWrapper h e (fun _ => sig)) := by
+  have hw := Obs.inv_wrap hi
+  have hsa : Inv h (sigAssertion h (newLeaf h sig)) := by
+    simp [Inv, sigAssertion, signedKV, newAssertion, newKnownValue, newLeaf]
+  have : signedWrapper h e (fun _ => sig) = AW.rebuild h (wrap h e) [sigAssertion h (newLeaf h sig)] := by
+    simp [signedWrapper, mkNode, AW.rebuild, AW.nodeOf, sortByDigest]
+  rw [this]
+  apply rebuild_inv h hw
+  · intro a ha; simp only [List.mem_singleton] at ha; subst ha; exact hsa
+  · simp [AscDigests]
+  · intro a ha; simp only [List.mem_singleton] at ha; subst ha; rfl
+
+
+/-- C10 (seal / unseal): an envelope sealed by sender `sk` to recipient `rk` is unsealed, with
+the sender's public key and the recipient's private key, to exactly the original envelope;
+any other recipient key gets `UnknownRecipient`, and against any other sender key the
+signature check fails with `UnverifiedSignature`.  (`hrt`: the one envelope that gets
+encrypted - the wrapped signed envelope - round-trips through its encoding, the conclusion
+of C05.) -/
+theorem c10_unseal_seal {V : SigScheme} {S : Signer} {K : Kem} {Sl : Sealer}
+    (LS : SigLaws V S) (LA : AeadLaws A) (LK : KemLaws K Sl) (ck n : Bytes) (sk rk rnd : Nat)
+    (e sealed : Env) (hi : Inv h e) (hH : ∀ b, (h.H b).Valid) (hck : ck.length = 32)
+    (hrt : RoundTrips h (wrap h (signedWrapper h e (fun _ => S.sign sk (wrap h e).digest))))
+    (hs : sealEnvelope h A e (S.sign sk (wrap h e).digest) ck n
+        (Sl.sealTo rk (symmetricKeyCbor ck).enc rnd) = .ok sealed) :
+    unsealEnvelope h A V K sk rk sealed = .ok e ∧
+    (∀ rk', rk' ≠ rk → unsealEnvelope h A V K sk rk' sealed = .err "UnknownRecipient") ∧
+    (∀ sk', sk' ≠ sk → unsealEnvelope h A V K sk' rk sealed = .err "UnverifiedSignature") := by
+  have hunw : unwrap (signedWrapper h e (fun _ => S.sign sk (wrap h e).digest)) = .ok e := rfl
+  have hsg := signWrapped_eq h e (S.sign sk (wrap h e).digest)
+  have hisg := signedWrapper_inv h hi (S.sign sk (wrap h e).digest)
+  have hr : addSignature h (wrap h e) (S.sign sk (wrap h e).subject.digest) []
+      (fun _ => S.sign sk (wrap h e).digest) =
+      .ok (signedWrapper h e (fun _ => S.sign sk (wrap h e).digest)) := hsg
+  have hbefore : ∀ sk', hasSignatureFrom h V sk' (wrap h e) = .ok false := by
+    intro sk'
+    rw [hasSig_eq]
+    rfl
+  have henc : encryptToRecipient h A ck n (Sl.sealTo rk (symmetricKeyCbor ck).enc rnd)
+      (signedWrapper h e (fun _ => S.sign sk (wrap h e).digest)) = .ok sealed := by
+    have hb : sealEnvelope h A e (S.sign sk (wrap h e).digest) ck n (Sl.sealTo rk (symmetricKeyCbor ck).enc rnd) =
+        encryptToRecipient h A ck n (Sl.sealTo rk (symmetricKeyCbor ck).enc rnd)
+          (signedWrapper h e (fun _ => S.sign sk (wrap h e).digest)) := by
+      simp only [sealEnvelope, hsg, Res.bind]
+    rw [← hb]; exact hs
+  generalize signedWrapper h e (fun _ => S.sign sk (wrap h e).digest) = sg at *
+  obtain ⟨hdec, hother⟩ := c10_encryptToRecipient_roundtrip h A LA LK ck n rk rnd sg sealed hisg hH hrt hck henc
+  have hver : hasSignatureFrom h V sk sg = .ok true :=
+    added_signature_verifies_fresh h LS sk (wrap h e) sg _ (fun x hx => by cases hx) hr
+  refine ⟨?_, ?_, ?_⟩
+  · unfold unsealEnvelope
+    rw [hdec]
+    show verifyWrapped h V sk sg = .ok e
+    unfold verifyWrapped verifySignatureFrom
+    rw [hver]
+    exact hunw
+  · intro rk' hne
+    unfold unsealEnvelope
+    rw [hother rk' hne]
+    rfl
+  · intro sk' hne
+    have hrej := other_key_rejects h LS sk sk' hne (wrap h e) sg _ [] _ (hbefore sk') hr
+    unfold unsealEnvelope
+    rw [hdec]
+    show verifyWrapped h V sk' sg = .err "UnverifiedSignature"
+    unfold verifyWrapped verifySignatureFrom
+    rw [hrej]
+    rfl
+
+/-- `seal` never fails and never panics on an envelope satisfying the invariant -/
+theorem c10_seal_total (e : Env) (sig : Cbor) (ck n : Bytes) (sealedMsg : Cbor) (hi : Inv h e)
+    (hH : ∀ b, (h.H b).Valid) : ∃ r, sealEnvelope h A e sig ck n sealedMsg = .ok r := by
+  obtain ⟨r, hr⟩ := ((c10_no_panic h A (K := kem) (signedWrapper h e (fun _ => sig)) "").2.2.2
+    (signedWrapper_inv h hi sig) hH ck n).2 sealedMsg
+  refine ⟨r, ?_⟩
+  simp only [sealEnvelope, signWrapped_eq, Res.bind]
+  exact hr
+
+end
+
+/-- a hash with small values, so that the toy signature `#6.40020([key, digest-as-number])`
+is an encodable CBOR value -/
+def Ex.H8 : Hash := ⟨fun b => ⟨(b.foldl (fun acc x => acc * 31 + x.toNat + 1) 7) % 251⟩⟩
+
+theorem Ex.H8_valid (b : Bytes) : (Ex.H8.H b).Valid :=
+  Nat.lt_trans (Nat.mod_lt _ (by decide)) (by decide)
+
+/-- `"b"` under that hash -/
+def Ex.subj8 : Env := newLeaf Ex.H8 (.text [0x62])
+
+/- the hypotheses are satisfiable: `"b"` sealed by sender 1 to recipient 2 -/
+example : ∃ sealed,
+    sealEnvelope Ex.H8 toyAead Ex.subj8 (Toy.signer.sign 1 (wrap Ex.H8 Ex.subj8).digest) Ex.ck []
+      (sealer.sealTo 2 (symmetricKeyCbor Ex.ck).enc 0) = .ok sealed ∧
+    unsealEnvelope Ex.H8 toyAead Toy.scheme kem 1 2 sealed = .ok Ex.subj8 ∧
+    unsealEnvelope Ex.H8 toyAead Toy.scheme kem 1 4 sealed = .err "UnknownRecipient" ∧
+    unsealEnvelope Ex.H8 toyAead Toy.scheme kem 3 2 sealed = .err "UnverifiedSignature" := by
+  have hinv : Inv Ex.H8 Ex.subj8 := ⟨rfl, trivial⟩
+  obtain ⟨sealed, hs⟩ := c10_seal_total Ex.H8 toyAead Ex.subj8 (Toy.signer.sign 1 (wrap Ex.H8 Ex.subj8).digest)
+    Ex.ck [] (sealer.sealTo 2 (symmetricKeyCbor Ex.ck).enc 0) hinv Ex.H8_valid
+  obtain ⟨h1, h2, h3⟩ := c10_unseal_seal Ex.H8 toyAead Toy.laws toyAead_laws kem_laws Ex.ck [] 1 2 0
+    Ex.subj8 sealed hinv Ex.H8_valid Ex.ck_len
+    (decode_encode Ex.H8 _ (Obs.inv_wrap (signedWrapper_inv Ex.H8 hinv _))
+      (by simp [wrap, newWrapped, signedWrapper, mkNode, sortByDigest, sigAssertion, signedKV, newAssertion,
+        newKnownValue, newLeaf, Ex.subj8, EncShape, EncShapeList])
+      (by simp [wrap, newWrapped, signedWrapper, mkNode, sortByDigest, sigAssertion, signedKV, newAssertion,
+        newKnownValue, newLeaf, Ex.subj8, Encodable, EncodableList, Cbor.Valid, Cbor.ValidList, Toy.signer,
+        KV_SIGNED, TAG_SIGNATURE, Env.digest, Ex.H8, Hash.ofDigests]
+          refine ⟨by decide +kernel, Nat.lt_trans (Nat.mod_lt _ (by decide)) (by decide)⟩)) hs
+  exact ⟨sealed, hs, h1, h2 4 (by decide), h3 3 (by decide)⟩
+
 end EnvVerif
